@@ -313,6 +313,21 @@ impl Harness for C13 {
         let exp = RStream { items: r.items.clone(), end: r.end.clone() };
         let (p, st) = compare(&out, &exp, &sig);
         if let Some(m) = st {
+          // what kind of mismatch: items of the expected sequence delivered more than once, or anything else
+          let got: Vec<(i64, i64)> = out.iter().filter_map(|r| if let Rec::Next(p) = r { Some((p.t as i64, p.tag as i64)) } else { None }).collect();
+          let want: Vec<(i64, i64)> = exp.items.iter().map(|x| (x.t as i64, x.tag as i64)).collect();
+          let mut dedup = got.clone();
+          dedup.dedup();
+          let mut once: Vec<(i64, i64)> = vec![];
+          for g in &got {
+            if !once.contains(g) {
+              once.push(*g);
+            }
+          }
+          let duplicates = got.len() > want.len() && got.iter().all(|g| want.contains(g)) && (once == want || dedup == want);
+          if duplicates {
+            fail!("subscriber-sequence;case=items-delivered-twice", format!("subscriber {}: {}", j, m));
+          }
           fail!("subscriber-sequence", format!("subscriber {}: {}", j, m));
         }
         props.push(p.unwrap());
